@@ -167,8 +167,8 @@ func checkC08(c *Check) {
 				guard          *LP
 			}{
 				{prot + "[" + hScheme + "]", req + ".SigningScheme", "signing scheme", nil},
-				{prot + "[" + t.labelMap + "[" + req + ".SigningScheme]]", "(github.com/fxamacker/cbor/v2.EncMode).Marshal(ncg/signature/cose.encMode, " + req + ".SigningTime)#0", "signing time under the scheme's label", nil},
-				{prot + "[" + hExpiry + "]", "(github.com/fxamacker/cbor/v2.EncMode).Marshal(ncg/signature/cose.encMode, " + req + ".Expiry)#0", "expiry", ptr(A("-TZero(" + req + ".Expiry)"))},
+				{prot + "[" + t.labelMap + "[" + req + ".SigningScheme]]", "(github.com/fxamacker/cbor/v2.EncMode).Marshal(" + t.enc + ", " + req + ".SigningTime)#0", "signing time under the scheme's label", nil},
+				{prot + "[" + hExpiry + "]", "(github.com/fxamacker/cbor/v2.EncMode).Marshal(" + t.enc + ", " + req + ".Expiry)#0", "expiry", ptr(A("-TZero(" + req + ".Expiry)"))},
 			}
 			for _, w := range want {
 				st := isStoreOf(w.key, func(k string) bool { return k == w.val })
